@@ -2,6 +2,7 @@
   Tie obligations for C04: the codec facts regenerated from /repo equal what Goat/Metadata.lean assumes.
 -/
 import Goat.Generated.Facts
+import Goat.Expected
 import Goat.Props.C04
 namespace Goat.Tie.C04
 open Goat
@@ -16,5 +17,6 @@ theorem to_metadata_lowers : Generated.toMetadataLowersKey = true := by decide
 /-- serverStream emits accumulated headers once, with the first envelope that leaves -/
 theorem flag_streamOnceGuards : Generated.cfg.streamOnceGuards = true := by decide
 theorem flag_badMetaSetsErr : Generated.cfg.badMetaSetsErr = true := by decide
+theorem sk_client_ClientConn_invoke : Generated.sk_client_ClientConn_invoke = Expected.sk_client_ClientConn_invoke := by decide
 
 end Goat.Tie.C04
